@@ -533,6 +533,10 @@ func checkMarshalInner(r *Run, o *simObj, what string) {
 						}
 						return fmt.Errorf("Elements.MarshalJSON: %w", e)
 					}
+					// marshalling reads: the same Elements marshal the same way again
+					if again, e2 := els.MarshalJSON(); e2 != nil || !bytes.Equal(again, all) {
+						return fmt.Errorf("Elements.MarshalJSON called a second time on the same Elements: %v, %d bytes against %d the first time", e2, len(again), len(all))
+					}
 					if hasNonFinite([]*MV{par}) {
 						r.violate("W-marshal", "nonfinite-emitted", what+": Elements.MarshalJSON emitted a non-finite float: "+string(shortBytes(all)))
 					} else {
@@ -802,6 +806,22 @@ func opSet(r *Run, o *simObj, what string) {
 		}
 		if err == nil {
 			itp = &els.Elements[pos[len(pos)-1]].Iter
+			par := getAt(o.model, pos[:len(pos)-1])
+			key := par.Keys[pos[len(pos)-1]]
+			uniq := 0
+			for _, k := range par.Keys {
+				if bytes.Equal(k, key) {
+					uniq++
+				}
+			}
+			if uniq == 1 && c.Intn("navlookup", 2) == 0 {
+				// by name: Lookup hands out the element the Elements hold
+				if el := els.Lookup(string(key)); el != nil {
+					itp = &el.Iter
+				} else {
+					err = fmt.Errorf("Elements.Lookup(%q) returned nil for a present key", key)
+				}
+			}
 		}
 	}
 	if err != nil {
